@@ -131,6 +131,7 @@ pub const NAMES: &[&str] = &[
     "FIRST.DAT",   // 23
     "LAST.DAT",    // 24
     "IN.DAT",      // 25
+    "ALGN.DAT",    // 26 exactly three clusters, fragmented
 ];
 
 #[derive(Clone, Copy, Debug, PartialEq, Eq, Hash, PartialOrd, Ord)]
